@@ -10,7 +10,7 @@ pub const SPEC: Spec = Spec {
     rule: "mode 0/1: a natural n (exhaustive 1..2^17, +-2000 around every power of two up to 2^33, random elsewhere) is encoded with encode_natural, compared bit-for-bit with the reference code, and decoded at 12 integer result types x up to 6 bounds; mode 2: arbitrary bytes decoded as a natural and compared with the reference decoder; mode 3: random interleavings of write_bit/write_bits_be/Write::write/flush_all read back with next/read_bit/read_u2/read_u8/read_cmr/read_fail_entropy/read_natural against a Vec<bool> model incl. counters and close(); mode 4: byte_slice_window(start,end) over random slices; mode 5: collect_bits. Non-trivial: natural >= 16, or an op sequence crossing >= 2 byte boundaries at an unaligned position, or a window with start%8 != 0 spanning >= 2 bytes. Distinct by a hash of the decoded case.",
     design_ref: "§6 C13",
     max_len: 400,
-    quick_cases: 60_000,
+    quick_cases: 300_000,
     thorough_cases: 3_000_000,
     fixed: Some(fixed),
     ..Spec::base("C13", "Bit streams and natural numbers code exactly", case)
